@@ -59,6 +59,7 @@ func c11Alphabet() []Action {
 		cmdOn(1, "AUTH", "v", "p1"), cmdOn(1, "AUTH", "u", "pv"), cmdOn(1, "AUTH", "adminpw"), cmdOn(1, "AUTH", "wrong"), cmdOn(1, "AUTH", "nobody", "p1"),
 		cmdOn(1, "HELLO", "3", "AUTH", "u", "p1"), cmdOn(1, "HELLO", "2", "AUTH", "u", "wrong"),
 		cmdOn(1, "ACL", "WHOAMI"), cmdOn(1, "GET", "a"),
+		cmdOn(2, "AUTH", "u", "p1"), cmdOn(2, "GET", "a"),
 	}
 }
 
@@ -70,9 +71,9 @@ type c11User struct {
 type c11Ref struct {
 	Users    map[string]*c11User
 	Saved    map[string]*c11User // content of the ACL file (nil = never saved)
-	Identity string              // user of c1 ("" = default)
-	Authed   bool
-	Closed   bool // c1 was terminated
+	Identity [3]string // user of connection i ("" = default); index 0 unused
+	Authed   [3]bool
+	Closed   [3]bool // the connection was terminated
 	AdminOK  bool
 }
 
@@ -118,7 +119,7 @@ func (r *c11Ref) step(a Action) (isAuth bool, authOK bool) {
 		} else {
 			r.Users = newC11Ref().Users
 		}
-		r.Identity, r.Authed, r.Closed, r.AdminOK = "", false, false, false
+		r.Identity, r.Authed, r.Closed, r.AdminOK = [3]string{}, [3]bool{}, [3]bool{}, false
 		return
 	}
 	if a.K != "cmd" {
@@ -162,8 +163,10 @@ func (r *c11Ref) step(a Action) (isAuth bool, authOK bool) {
 			}
 			if _, ok := r.Users[n]; ok {
 				delete(r.Users, n)
-				if r.Identity == n {
-					r.Closed = true
+				for c := 1; c <= 2; c++ {
+					if r.Authed[c] && r.Identity[c] == n {
+						r.Closed[c] = true
+					}
 				}
 			}
 		}
@@ -189,24 +192,24 @@ func (r *c11Ref) step(a Action) (isAuth bool, authOK bool) {
 				r.Users[n] = cloneUsers(map[string]*c11User{n: su})[n]
 			}
 		}
-	case a.C == 1 && name == "AUTH":
+	case a.C >= 1 && name == "AUTH":
 		isAuth = true
 		user, pw := "default", a.A[1]
 		if len(a.A) == 3 {
 			user, pw = a.A[1], a.A[2]
 		}
 		authOK = r.canAuth(user, pw)
-		if authOK && !r.Closed {
-			r.Identity, r.Authed = user, true
+		if authOK && !r.Closed[a.C] {
+			r.Identity[a.C], r.Authed[a.C] = user, true
 			if user == "default" {
-				r.Identity = ""
+				r.Identity[a.C] = ""
 			}
 		}
-	case a.C == 1 && name == "HELLO":
+	case a.C >= 1 && name == "HELLO":
 		isAuth = true
 		authOK = r.canAuth(a.A[3], a.A[4])
-		if authOK && !r.Closed {
-			r.Identity, r.Authed = a.A[3], true
+		if authOK && !r.Closed[a.C] {
+			r.Identity[a.C], r.Authed[a.C] = a.A[3], true
 		}
 	}
 	return
@@ -270,7 +273,7 @@ func (c11Check) Run(u Unit, w *Worker) UnitResult {
 	json.Unmarshal(u.Args, &a)
 	res := UnitResult{Stats: map[string]int64{}}
 	alpha := c11Alphabet()
-	cfg := InstCfg{Conns: 2, RequirePass: true, Password: "adminpw", AclConfig: "/data/acl." + a.Ext, DataDir: "/data"}
+	cfg := InstCfg{Conns: 3, RequirePass: true, Password: "adminpw", AclConfig: "/data/acl." + a.Ext, DataDir: "/data"}
 	root := []Action{cmdOn(0, "AUTH", "adminpw"), cmdOn(0, "SET", "a", "x")}
 	spec := &SeqSpec{Prop: "C11", Cfg: cfg, Depth: a.Depth, Deadline: 20 * time.Minute,
 		Alphabet: func(pre *State, depth int) []Action { return alpha }}
@@ -322,7 +325,8 @@ func (c11Check) Run(u Unit, w *Worker) UnitResult {
 				add("user-table", shape, fmt.Sprintf("stored users %s, reference %s", got, want))
 			}
 		}
-		if isAuth && !before.Closed {
+		ci := act.C
+		if isAuth && !before.Closed[ci] {
 			ok := !out.V.IsErr() && !out.Empty
 			switch {
 			case authOK && !ok:
@@ -343,27 +347,27 @@ func (c11Check) Run(u Unit, w *Worker) UnitResult {
 				add("auth-accepted", why, "the credentials do not match the stored user")
 			}
 			// identity after the attempt
-			idn := post.Dump.ACLConns["c1"]
-			wantUser := ref.Identity
+			idn := post.Dump.ACLConns[fmt.Sprintf("c%d", ci)]
+			wantUser := ref.Identity[ci]
 			if wantUser == "" {
 				wantUser = "default"
 			}
-			want := fmt.Sprintf("%v|%s|", ref.Authed, wantUser)
+			want := fmt.Sprintf("%v|%s|", ref.Authed[ci], wantUser)
 			if !strings.HasPrefix(idn, want) {
 				k := "identity-after-success"
 				if !authOK {
 					k = "identity-after-failure"
 				}
-				add(k, "", fmt.Sprintf("connection identity is %q, reference says authenticated=%v as %s", idn, ref.Authed, wantUser))
+				add(k, "", fmt.Sprintf("connection identity is %q, reference says authenticated=%v as %s", idn, ref.Authed[ci], wantUser))
 			}
 		}
-		if act.K == "cmd" && act.C == 1 && !isAuth && !before.Closed {
-			wantUser := before.Identity
+		if act.K == "cmd" && act.C >= 1 && !isAuth && !before.Closed[ci] {
+			wantUser := before.Identity[ci]
 			if wantUser == "" {
 				wantUser = "default"
 			}
 			uu, exists := before.Users[wantUser]
-			mayAct := before.Authed && exists && uu.Enabled
+			mayAct := before.Authed[ci] && exists && uu.Enabled
 			switch name {
 			case "ACL WHOAMI":
 				if mayAct && (out.V.IsErr() || out.V.Text() != wantUser) {
@@ -373,9 +377,9 @@ func (c11Check) Run(u Unit, w *Worker) UnitResult {
 				executed := !out.Empty && !out.V.IsErr()
 				if !mayAct && executed {
 					why := "unauthenticated"
-					if before.Authed && !exists {
+					if before.Authed[ci] && !exists {
 						why = "deleted-user"
-					} else if before.Authed && !uu.Enabled {
+					} else if before.Authed[ci] && !uu.Enabled {
 						why = "disabled-user"
 					}
 					add("acted-without-right", why, "the connection's user may not act any more")
@@ -385,7 +389,7 @@ func (c11Check) Run(u Unit, w *Worker) UnitResult {
 				}
 			}
 		}
-		if act.K == "cmd" && act.C == 1 && before.Closed && !out.Empty && !out.V.IsErr() && name == "GET" {
+		if act.K == "cmd" && act.C >= 1 && before.Closed[ci] && !out.Empty && !out.V.IsErr() && name == "GET" {
 			add("acted-without-right", "terminated-connection", "the connection's user was deleted (connection should be terminated)")
 		}
 		if name == "ACL DELUSER" && before.AdminOK {
